@@ -60,6 +60,27 @@ def run(chk, binary):
 
 def _run(chk, binary, rng, thorough, nsc, nruns):
     scs = []
+    # every program once per driver family, on inputs large enough to be spread over the workers
+    for prog in PROGRAMS:
+        fo = []
+        scs.append(("stdin-lw", {"files": [], "opts": fo + ["--linewise"], "cmds": prog, "stdin": big_text(rng, 300)}))
+        names = ["f%02d.txt" % i for i in rng.sample(range(100), 8)]
+        files = [(nm, big_text(rng, rng.choice([3, 40, 150, 150])).encode()) for nm in names]
+        scs.append(("files", {"files": files, "opts": fo, "cmds": prog, "stdin": None}))
+        if thorough:
+            scs.append(("files-lw", {"files": files, "opts": fo + ["--linewise"], "cmds": prog, "stdin": None}))
+    # a register written before a -g/-v scan and read inside it, with enough matching work per file that a worker
+    # waiting inside the scan could pick up another file's unit (nested parallelism would leak the register)
+    for rep in range(3 if thorough else 1):
+        files = []
+        for k in range(28):
+            nl = rng.choice([2, 4, 8, 12, 3, 6])
+            ll = rng.choice([3000, 8000, 20000, 5000, 12000])
+            body = ("ab cdefg hij abcde fgh ij bcd efghija " * (ll // 38 + 1))[:ll]
+            lines = ["w%02d first" % k] + [("MARK " if i % 4 == 0 else "nope ") + body for i in range(nl)]
+            files.append(("f%02d.txt" % k, ("\n".join(lines) + "\n").encode()))
+        scs.append(("files", {"files": files, "opts": [], "cmds": ["-m", "yiw", "-g", "^MARK|(\\w{2,9} ){3}ZZZ", "-m", "P", "--end"], "stdin": None,
+                              "threads": [16, 12, 8, 16, 12]}))
     for i in range(nsc):
         prog = rng.choice(PROGRAMS)
         r = rng.random()
@@ -88,29 +109,44 @@ def _run(chk, binary, rng, thorough, nsc, nruns):
     dist = {}
     nthreads_seen = set()
     total_units = 0
-    for kind, sc in scs:
-        dist[kind] = dist.get(kind, 0) + 1
-        ser_sc = dict(sc, opts=sc["opts"] + ["--serial"])
-        ref = D.run_scenario(binary, ser_sc)
-        runs = []
+    from concurrent.futures import ThreadPoolExecutor
+    plan = []
+    for si, (kind, sc) in enumerate(scs):
+        plan.append((si, -1, None, None))
         for k in range(nruns):
-            th = rng.choice(THREADS + [8, 16, 16])
-            jit = rng.randint(1, 10**6)
-            tracef = os.path.join(TMP, f"trace_{os.getpid()}_{k}.jsonl")
-            env = {"RAYON_NUM_THREADS": str(th), "VICUT_VERIF_JITTER": str(jit), "VICUT_VERIF_TRACE": tracef}
-            ob = D.run_scenario(binary, dict(sc, env=env, timeout=120))
-            tids = set()
-            nun = 0
-            try:
-                for line in open(tracef, encoding="utf-8"):
-                    tids.add(json.loads(line)["tid"])
-                    nun += 1
-                os.remove(tracef)
-            except FileNotFoundError:
-                pass
-            nthreads_seen.add(len(tids))
+            th = sc["threads"][k % len(sc["threads"])] if "threads" in sc else rng.choice(THREADS + [8, 16, 16])
+            plan.append((si, k, th, rng.randint(1, 10**6)))
+
+    def one(job):
+        si, k, th, jit = job
+        kind, sc = scs[si]
+        if k < 0:
+            return D.run_scenario(binary, dict(sc, opts=sc["opts"] + ["--serial"]))
+        tracef = os.path.join(TMP, f"trace_{os.getpid()}_{si}_{k}.jsonl")
+        env = {"RAYON_NUM_THREADS": str(th), "VICUT_VERIF_JITTER": str(jit), "VICUT_VERIF_TRACE": tracef}
+        ob = D.run_scenario(binary, dict(sc, env=env, timeout=180))
+        tids = set()
+        nun = 0
+        try:
+            for line in open(tracef, encoding="utf-8"):
+                tids.add(json.loads(line)["tid"])
+                nun += 1
+            os.remove(tracef)
+        except FileNotFoundError:
+            pass
+        return (th, jit, ob, len(tids), nun)
+    with ThreadPoolExecutor(4) as ex:          # a few runs at a time: they compete for the cores, which varies the schedules
+        done = list(ex.map(one, plan))
+    by_sc = {}
+    for job, r in zip(plan, done):
+        by_sc.setdefault(job[0], []).append((job[1], r))
+    for si, (kind, sc) in enumerate(scs):
+        dist[kind] = dist.get(kind, 0) + 1
+        ref = [r for k, r in by_sc[si] if k < 0][0]
+        runs = [r for k, r in by_sc[si] if k >= 0]
+        for th, jit, ob, ntid, nun in runs:
+            nthreads_seen.add(ntid)
             total_units += nun
-            runs.append((th, jit, ob, len(tids), nun))
         chk.count(("c04", kind, tuple(sc["opts"] + sc["cmds"]), sc.get("stdin"), tuple(sc["files"])), nontrivial=True)
         chk.cov["traces_validated_against_impl"] += len(runs)
         base = runs[0][2]
@@ -120,7 +156,7 @@ def _run(chk, binary, rng, thorough, nsc, nruns):
                               {"kind": kind, "argv": ob["argv"], "threads": [runs[0][0], th], "jitter": [runs[0][1], jit],
                                "stdout_a": base["out"].decode(errors="replace")[:600], "stdout_b": ob["out"].decode(errors="replace")[:600],
                                "files_differ": [n for n in ob["final"] if ob["final"][n] != base["final"].get(n)],
-                               "stdin": (sc.get("stdin") or "")[:400], "files": [(a, b.decode(errors="replace")[:200]) for a, b in sc["files"]]})
+                               "stdin": (sc.get("stdin") or "")[:400], "files": [(a, b.decode(errors="replace")[:3000]) for a, b in sc["files"]]})
                 break
         # against --serial (up to serial's extra final newline on stdout)
         if ref["rc"] == 0 and base["rc"] == 0:
@@ -129,7 +165,7 @@ def _run(chk, binary, rng, thorough, nsc, nruns):
                               {"kind": kind, "argv": base["argv"], "stdout_parallel": base["out"].decode(errors="replace")[:600],
                                "stdout_serial": ref["out"].decode(errors="replace")[:600],
                                "files_differ": [n for n in ref["final"] if ref["final"][n] != base["final"].get(n)],
-                               "stdin": (sc.get("stdin") or "")[:400], "files": [(a, b.decode(errors="replace")[:200]) for a, b in sc["files"]]})
+                               "stdin": (sc.get("stdin") or "")[:400], "files": [(a, b.decode(errors="replace")[:3000]) for a, b in sc["files"]]})
     # model correspondence on the small scenarios
     small = [(kind, sc) for kind, sc in scs if len(sc.get("stdin") or "") < 600 and sum(len(b) for _, b in sc["files"]) < 600]
     sobs = [D.run_scenario(binary, sc) for _, sc in small]
